@@ -135,8 +135,10 @@ def spec_dir(ctx, name):
 
 
 def tlc(cwd, module, cfg=None, workers=1, timeout=1800, xmx="3g", extra=()):
-    cmd = ["timeout", str(timeout), "java", "-Xmx" + xmx, "-Xss64m", "-XX:+UseSerialGC" if workers == 1 else "-XX:+UseParallelGC",
-           "-cp", TLA_CP, "tlc2.TLC", "-workers", str(workers), "-metadir", os.path.join(cwd, "md-" + module),
+    jtmp = os.path.join(cwd, "jtmp")      # TLC unpacks its standard modules into java.io.tmpdir on every run: keep
+    os.makedirs(jtmp, exist_ok=True)      # that inside the scratch directory so that it is removed with it
+    cmd = ["timeout", str(timeout), "java", "-Djava.io.tmpdir=" + jtmp, "-Xmx" + xmx, "-Xss64m",
+           "-XX:+UseSerialGC" if workers == 1 else "-XX:+UseParallelGC", "-cp", TLA_CP, "tlc2.TLC", "-workers", str(workers), "-metadir", os.path.join(cwd, "md-" + module),
            "-config", cfg or (module + ".cfg")] + list(extra) + [module + ".tla"]
     p = subprocess.run(cmd, cwd=cwd, capture_output=True, text=True)
     return p.returncode, p.stdout + p.stderr
